@@ -231,6 +231,29 @@ def class_state_obligations(S):
     S.static_vc("frame", "hypnotoad.core.mesh:BoutMesh.__init__", "no class-level mutable container is mutated in place through an instance without being rebound per instance in __init__ (%d classes, %d class-level containers: %s)" % (n_classes, len(declared), sorted(declared)[:8]), not bad, detail=repr(bad[:4]), kind="ast-frame", model=dict(findings=bad[:4]) if bad else None)
 
 
+def reset_recorded(S):
+    """What writeGridfile embeds as the non-orthogonal inputs is `equilibrium.nonorthogonal_options`
+    (embedding block, below): after Equilibrium.resetNonorthogonalOptions(s) -- the hand-over of
+    Mesh.redistributePoints -- that object holds the evaluated NEW settings, the same the regions
+    were given; so a grid regridded with new settings embeds the settings it was made with."""
+    from contracts.C10_bounded import make_region
+
+    bad, n = [], 0
+    for new in (dict(nonorthogonal_radial_range_power=3), dict(nonorthogonal_xpoint_poloidal_spacing_length=0.5, nonorthogonal_spacing_method="poloidal_orthogonal_combined"), {}):
+        r = make_region(ny=4, kind="wall.X", name="inner_lower_divertor", extra=dict(target_all_poloidal_spacing_length=0.3))
+        eq = r.equilibrium
+        eq.regions = {"a": r}
+        eq.resetNonorthogonalOptions(dict(nonorthogonal_radial_range_power=5, nonorthogonal_xpoint_poloidal_spacing_length=0.9))  # an earlier regrid
+        want = dict(eq.nonorthogonal_options_factory.create(dict(new)))
+        eq.resetNonorthogonalOptions(dict(new))
+        n += 1
+        got_eq, got_reg = dict(eq.nonorthogonal_options), dict(r.nonorthogonal_options)
+        if got_eq != want or got_reg != want:
+            diff = {k: (got_eq.get(k), got_reg.get(k), want[k]) for k in want if got_eq.get(k) != want[k] or got_reg.get(k) != want[k]}
+            bad.append(dict(new_settings=new, problem="after the reset (equilibrium's, region's, wanted) differ", differences=dict(list(diff.items())[:4])))
+    S.static_vc("options-recorded", "hypnotoad.core.equilibrium:Equilibrium.resetNonorthogonalOptions", "after a reset the equilibrium's own non-orthogonal options (the ones embedded in the grid file) and every region's are the evaluated new settings, nothing of an earlier regrid (%d cases)" % n, not bad, detail=repr(bad[:2]), kind="native", model=bad[0] if bad else None)
+
+
 def native_frame(S):
     """The real TokamakEquilibrium constructor must leave the caller's arrays untouched, and a
     second build from the same arrays must give the same profiles (every sign/scale option,
@@ -377,6 +400,8 @@ def build(S):
     frame_obligations(S)
     globals_obligations(S)
     class_state_obligations(S)
+    S.under_contract("hypnotoad.core.equilibrium:Equilibrium.resetNonorthogonalOptions")
+    reset_recorded(S)
     # the inputs embedded in the file are the MESH's options: they regenerate the grid only if the mesh
     # was made to agree with the equilibrium on every shared option, omitted ones included
     from . import C12
